@@ -29,7 +29,7 @@ def main() -> None:
         meta = load(d, "meta.json")
         if meta is None:
             continue
-        first = load(d, "result_baseline.json") or load(d, "result_round2_first.json") or load(d, "result_round3_first.json") or load(d, "result_round4_first.json") or load(d, "result_round5_first.json") or load(d, "result_round6_first.json") or load(d, "result_round7_first.json")
+        first = load(d, "result_baseline.json") or load(d, "result_round2_first.json") or load(d, "result_round3_first.json") or load(d, "result_round4_first.json") or load(d, "result_round5_first.json") or load(d, "result_round6_first.json") or load(d, "result_round7_first.json") or load(d, "result_round8_first.json")
         final = load(d, "result.json")
         rep = "–"
         if final:
